@@ -265,3 +265,85 @@ theorem LW_assembleT (segs : List SegT) (hs : ∀ g ∈ segs, g.ok) : LW (assemb
   exact he
 
 end ErrModel
+
+namespace ErrModel
+
+/-! ### Redact keeps a well-formed string well-formed -/
+
+theorem spanBytes_spec (t : Toks) : t = bytesT (spanBytes t).1 ++ (spanBytes t).2 ∧
+    (∀ x, (spanBytes t).2.head? = some x → ∀ c, x ≠ Tok.b c) := by
+  induction t with
+  | nil => simp [spanBytes, bytesT]
+  | cons a r ih =>
+    cases a with
+    | op => simp [spanBytes, bytesT]
+    | cl => simp [spanBytes, bytesT]
+    | b x =>
+      obtain ⟨h1, h2⟩ := ih
+      simp only [spanBytes]
+      refine ⟨?_, h2⟩
+      simp only [bytesT, List.map_cons, List.cons_append]
+      congr 1
+
+theorem redactedT_lw : lw false redactedT = some false := by decide
+
+/-- plain bytes never change the state -/
+theorem lw_bytes_state (st st' : Bool) (s : Str) (h : lw st (bytesT s) = some st') : st' = st := by
+  induction s with
+  | nil => simp [bytesT, lw] at h; exact h.symm
+  | cons c r ih =>
+    simp only [bytesT, List.map_cons, lw] at h
+    split at h
+    · simp at h
+    · exact ih h
+
+/-- `Redact()` of a well-formed string is well-formed (every enclosure becomes `‹×›`) -/
+theorem LW_redactT (t : Toks) : LW t → LW (redactT t) := by
+  unfold LW
+  fun_induction redactT t with
+  | case1 => intro h; exact h
+  | case2 r bs r' hsp _ ih =>
+    intro h
+    obtain ⟨hspec, _⟩ := spanBytes_spec r
+    rw [hsp] at hspec
+    simp only [lw, Bool.false_eq_true, if_false] at h
+    rw [hspec, lw_append] at h
+    cases hb : lw true (bytesT bs) with
+    | none => rw [hb] at h; simp at h
+    | some s1 =>
+      have := lw_bytes_state true s1 bs hb
+      subst this
+      rw [hb] at h
+      simp [lw] at h
+      rw [lw_append, redactedT_lw]
+      simpa using ih h
+  | case3 r hno ih =>
+    intro h
+    exfalso
+    obtain ⟨hspec, hhead⟩ := spanBytes_spec r
+    simp only [lw, Bool.false_eq_true, if_false] at h
+    rw [hspec, lw_append] at h
+    cases hb : lw true (bytesT (spanBytes r).1) with
+    | none => rw [hb] at h; simp at h
+    | some s1 =>
+      have := lw_bytes_state true s1 _ hb
+      subst this
+      rw [hb] at h
+      simp only [Option.bind_some] at h
+      cases hr : (spanBytes r).2 with
+      | nil => rw [hr] at h; simp [lw] at h
+      | cons x rest =>
+        rw [hr] at h
+        cases x with
+        | op => simp [lw] at h
+        | cl => exact hno (spanBytes r).1 rest (by rw [← hr])
+        | b c => exact hhead (.b c) (by rw [hr]; rfl) c rfl
+  | case4 r ih =>
+    intro h
+    simp [lw] at h
+  | case5 x r ih =>
+    intro h
+    simp only [lw, Bool.and_false, Bool.false_eq_true, if_false] at h ⊢
+    exact ih h
+
+end ErrModel
